@@ -1,16 +1,19 @@
 #!/bin/bash
-# tools/try_seed.sh <pid> <worktree> <name> : confirm a seeded change (demo fails with / passes without),
-# run the property's quick check against the changed tree, and store it under /verif/seeded/<name>/.
-pid=$1; wt=$2; name=$3
-out=/verif/seeded/$name; mkdir -p $out
+# tools/try_seed.sh <pid> <name> [tier]: confirm the seeded change /verif/seeded/<name>/patch.diff on a fresh worktree of
+# /repo's CURRENT HEAD (demo fails with it, passes without it), run the property's check against the changed tree,
+# store logs under /verif/seeded/<name>/ and remove the worktree.
+pid=$1; name=$2; tier=${3:-quick}
+out=/verif/seeded/$name; wt=/tmp/try_$name
 export PYTHONDONTWRITEBYTECODE=1 PYTHONPYCACHEPREFIX=/verif/build/.nopyc
-cd $wt || exit 2
-git -C $wt diff -- nitime > $out/patch.diff
-cp $wt/demo_$pid.py $out/ 2>/dev/null; cp $wt/meta.json $out/meta_agent.json 2>/dev/null
-echo "== demo WITH change"; (cd $wt && PYTHONPATH=$wt timeout 600 /venv/bin/python -W ignore demo_$pid.py > $out/demo_with.log 2>&1; echo "rc=$?" | tee $out/demo_with.rc; tail -3 $out/demo_with.log)
-git -C $wt checkout -- nitime   # (no git stash: the stash is shared by all worktrees)
-echo "== demo WITHOUT change"; (cd $wt && PYTHONPATH=$wt timeout 600 /venv/bin/python -W ignore demo_$pid.py > $out/demo_without.log 2>&1; echo "rc=$?" | tee $out/demo_without.rc; tail -3 $out/demo_without.log)
-git -C $wt apply $out/patch.diff
-echo "== check WITH change"; (cd /verif && NITIME_REPO=$wt ./check $pid > $out/check_with.log 2>&1; echo "rc=$?" | tee $out/check_with.rc; grep -c VIOLATION $out/check_with.log; tail -2 $out/check_with.log | cut -c1-300)
+git -C /repo worktree remove --force $wt 2>/dev/null; rm -rf $wt
+git -C /repo worktree add -q --detach $wt HEAD || exit 2
+git -C /repo rev-parse HEAD > $out/confirmed_on_commit.txt
+cp $out/demo_$pid.py $wt/
+echo "== demo WITHOUT change (HEAD)"; (cd $wt && PYTHONPATH=$wt timeout 900 /venv/bin/python -W ignore demo_$pid.py > $out/demo_without.log 2>&1; echo "rc=$?" | tee $out/demo_without.rc; tail -2 $out/demo_without.log | cut -c1-200)
+if ! git -C $wt apply --3way $out/patch.diff 2> $out/apply.log; then echo "PATCH DOES NOT APPLY to HEAD (see apply.log)"; cat $out/apply.log | tail -5; fi
+git -C $wt diff HEAD -- nitime > $out/patch_on_head.diff
+echo "== demo WITH change"; (cd $wt && PYTHONPATH=$wt timeout 900 /venv/bin/python -W ignore demo_$pid.py > $out/demo_with.log 2>&1; echo "rc=$?" | tee $out/demo_with.rc; tail -2 $out/demo_with.log | cut -c1-200)
+echo "== check WITH change"; (cd /verif && NITIME_REPO=$wt ./check $pid --tier $tier > $out/check_with.log 2>&1; echo "rc=$?" | tee $out/check_with.rc; grep -c '^VIOLATION' $out/check_with.log; tail -1 $out/check_with.log | cut -c1-300)
 first=$(grep -m1 -o 'replay=[^ ]*' $out/check_with.log | cut -d= -f2)
 [ -n "$first" ] && cp $first $out/first_replay.json
+git -C /repo worktree remove --force $wt
